@@ -879,7 +879,7 @@ struct C08 : Property
 		g_fd.reset_run();
 		if (!g_alloc.live.empty())
 		{
-			std::string lsite = g_alloc.site_of(g_alloc.live.begin()->second);
+			std::string lsite = g_alloc.first_live_site();
 			Exec e2 = e;
 			std::string desc = g_alloc.describe_live();
 			size_t nlive = g_alloc.live.size();
